@@ -201,6 +201,55 @@ def rule_fpcov(ctx):
             r.violation(key2, C.loc(f, dumps[0]), "the hashed structure is built per *index* and does not contain the number of "
                         "tensors: a contraction with an extra index-free tensor (a scalar factor) has the same fingerprint, so "
                         "the path recorded for the smaller contraction is returned for it — an incomplete path")
+    # (seed C14_12) sizes enter the fingerprint *with their labels*: a size dictionary may carry labels the terms do not
+    # use, so a bare sequence of sizes (in whatever order) lets two dictionaries with the same multiset-in-order but other
+    # sizes on the used indices share an entry
+    for f in _fp_funcs(ctx):
+        key3 = ctx.key(f, "C14-FPCOV", "labelled-sizes")
+        la = ctx.r.local_assignments(f)
+        dumps = [n for n in walk_local(f.node) if isinstance(n, ast.Call) and (dotted(n.func) or "").endswith("dumps") and n.args]
+        if not dumps:
+            r.exempt(key3, f.loc, "no pickled structure recognised: pairing of sizes and labels not decided")
+            continue
+
+        def carriers(e, depth=0):
+            """sub-expressions of the hashed structure that mention size_dict (through single-definition locals)"""
+            out = []
+            for x in ast.walk(e):
+                if isinstance(x, ast.Name) and x.id != "size_dict" and depth < 3:
+                    for v in la.get(x.id, []):
+                        out += carriers(v, depth + 1)
+            if any(isinstance(x, ast.Name) and x.id == "size_dict" for x in ast.walk(e)):
+                out.append(e)
+            return out
+
+        cs = carriers(dumps[0].args[0])
+        paired = bare = None
+        for c in cs:
+            for x in ast.walk(c):
+                if isinstance(x, ast.Call) and isinstance(x.func, ast.Attribute) and x.func.attr == "items" and dotted(x.func.value) == "size_dict":
+                    paired = x
+                if isinstance(x, (ast.GeneratorExp, ast.ListComp, ast.SetComp)) and any(dotted(g.iter) == "size_dict" or
+                        (isinstance(g.iter, ast.Call) and any(dotted(a) == "size_dict" for a in g.iter.args)) for g in x.generators):
+                    tv = {n_.id for g in x.generators for n_ in ast.walk(g.target) if isinstance(n_, ast.Name)}
+                    elt_names = {n_.id for n_ in ast.walk(x.elt) if isinstance(n_, ast.Name)}
+                    has_value = any(isinstance(y, ast.Subscript) and dotted(y.value) == "size_dict" for y in ast.walk(x.elt))
+                    label_outside_subscript = any(isinstance(y, ast.Name) and y.id in tv and not isinstance(f.module.parents.get(y), ast.Subscript)
+                                                  for y in ast.walk(x.elt))
+                    if has_value and not (isinstance(x.elt, ast.Tuple) and label_outside_subscript):
+                        bare = x
+                    elif has_value:
+                        paired = x
+                if isinstance(x, ast.Call) and isinstance(x.func, ast.Attribute) and x.func.attr == "values" and dotted(x.func.value) == "size_dict":
+                    bare = x
+        if bare is not None:
+            r.violation(key3, C.loc(f, bare), f"`{C.unparse(bare, 70)}` puts the sizes into the fingerprint without their labels: a size dictionary may "
+                        "carry labels the terms do not use, so two queries with the same terms but other sizes on the used indices can share an "
+                        "entry — the second is answered with the first one's path and score")
+        elif paired is not None:
+            r.ok(key3, C.loc(f, paired), "sizes enter the fingerprint as (label, size) pairs")
+        else:
+            r.exempt(key3, f.loc, "how size_dict enters the hashed structure was not recognised: not decided")
     return r
 
 
